@@ -25,6 +25,17 @@ class AnalysisError(Exception):
     """
 
 
+class DefectFound(AnalysisError):
+    """The symbolic interpretation itself met a definite defect of the analysed code (not a limit of the analysis): a
+    slot of an array allocated with np.empty is read although no store can have reached it.  Reported as a violation
+    (rule UNINIT-READ) by the property that was interpreting the function; a rule that catches AnalysisError to report
+    its own instance still does so."""
+
+    def __init__(self, file, function, line, construct, message):
+        AnalysisError.__init__(self, "%s::%s line %s: %s" % (file, function, line, message))
+        self.file, self.function, self.line, self.construct, self.message = file, function, line, construct, message
+
+
 def norm(text):
     """Normalise a construct string (whitespace-insensitive)."""
     return re.sub(r"\s+", " ", str(text)).strip()
